@@ -316,6 +316,8 @@ fn parse_sequence_header(obu_data: &[u8], header_size: usize) -> Option<Av1Confi
     } else {
         // timing_info_present_flag: 1 bit
         let timing_info_present = reader.read_bit()?;
+        let mut decoder_model_info_present = false;
+        let mut buffer_delay_length = 0;
         if timing_info_present {
             // Skip timing_info
             reader.skip_bits(32)?; // num_units_in_display_tick
@@ -325,16 +327,15 @@ fn parse_sequence_header(obu_data: &[u8], header_size: usize) -> Option<Av1Confi
                 // Skip num_ticks_per_picture_minus_1 (uvlc)
                 skip_uvlc(&mut reader)?;
             }
-        }
 
-        // decoder_model_info_present_flag: 1 bit
-        let decoder_model_info_present = reader.read_bit()?;
-        let mut buffer_delay_length = 0;
-        if decoder_model_info_present {
-            buffer_delay_length = reader.read_bits(5)? as u8 + 1;
-            reader.skip_bits(32)?; // num_units_in_decoding_tick
-            reader.skip_bits(5)?; // buffer_removal_time_length
-            reader.skip_bits(5)?; // frame_presentation_time_length
+            // decoder_model_info_present_flag: 1 bit, only coded together with timing_info
+            decoder_model_info_present = reader.read_bit()?;
+            if decoder_model_info_present {
+                buffer_delay_length = reader.read_bits(5)? as u8 + 1;
+                reader.skip_bits(32)?; // num_units_in_decoding_tick
+                reader.skip_bits(5)?; // buffer_removal_time_length
+                reader.skip_bits(5)?; // frame_presentation_time_length
+            }
         }
 
         // initial_display_delay_present_flag: 1 bit
